@@ -144,9 +144,16 @@ def e2e_cases(ctx):
             # some roots fail while others succeed (added after a seeded change that shifted the
             # per-statistic errors by the padding count was missed: with every root accepted the
             # errors never mattered)
+            rl = rng.below(len(shapes))
             cases.append(dict(kind="pmap", N_target=N, mode=mode, root=root, shapes=shapes,
-                              block_size=block, kw=kw_r, Ds=Ds, steps=3, seed=seed,
-                              reject_leaf=rng.below(len(shapes))))
+                              block_size=block, kw=kw_r, Ds=Ds, steps=3, seed=seed, reject_leaf=rl))
+            if mode != "quant":
+              # the same without training metrics in the state: the gathered root errors still decide
+              # which preconditioners are replaced (added after a seeded change that skipped the gather
+              # of the metrics in that mode was missed)
+              cases.append(dict(kind="pmap", N_target=N, mode=mode, root=root, shapes=shapes,
+                                block_size=block, kw=dict(kw_r, generate_training_metrics=False), Ds=Ds,
+                                steps=3, seed=seed, reject_leaf=rl))
   # sharded variant (eager, slow): small trees, declared device counts
   if quick:
     sh = [(0, [1, 3]), (1, [1, 2, 8]), (4, [1, 3, 8]), (5, [1, 2, 3, 8]), (7, [1, 2, 8])]
